@@ -123,7 +123,7 @@ pub fn grammars(tier: &str) -> Vec<LexGrammar> {
     {
         // (ordered triples of such tokens were tried first and are left out: two tokens that differ only behind an inner blank,
         // e.g. a([ ]a)* and a[ ]b, are not seen as conflicting by the generator, their lex states are merged and "xa b" is
-        // rejected - not triaged in the time left, see DESIGN section 5, round 8)
+        // rejected - that is family (viii) and a known finding, see DESIGN section 5, round 8)
         let sm: Vec<&str> = vec!["(a[ ]*)*b", "a([ ]a)*", "(a[ ]*)+c?b", "a[ ]b", "(b[ ]*)*a?c", "(b[ ]*)*a?;", "([ab][ ]?)+;"];
         for (k, inner) in sm.iter().enumerate() { for first in ["[ab]+", "c+", "b"] .iter().enumerate() {
             let toks: Vec<TokDef> = vec![mk_tok(0, (first.1, false), None), mk_tok(1, ("c", true), None), mk_tok(2, (inner, false), None)];
@@ -132,6 +132,18 @@ pub fn grammars(tier: &str) -> Vec<LexGrammar> {
             g = g.extras(vec![pat(" ")]);
             inner_sp.push(LexGrammar { id: g.name.clone(), g, toks, kind: "context", space_extra: true, alphabet: vec!["a", "b", "c", ";", " "] });
         } }
+    }
+    // (viii) a token that can go on with a character after a complete match and then fail (a(ba)*  on "ab|c"), beside a longer token
+    // that goes on with the SAME character and succeeds (abc) but is valid only in the other context: the generator's conflict
+    // test skips the pair (the completed token itself advances), merges the two lex states, and "xabc" is lexed as the token
+    // that is not valid after `x` (known finding; found through the first form of family (vii))
+    let mut merged_fam: Vec<LexGrammar> = vec![];
+    for (k, (t0, t1, t2, space)) in [("a(ba)*", "bc", "abc", false), ("a([ ]a)*", "[ab]+", "a[ ]b", true), ("a(bc)*", "bb", "abb", false), ("(ab)+", "ac", "aba+c", false)].iter().enumerate() {
+        let toks: Vec<TokDef> = vec![mk_tok(0, (t0, false), None), mk_tok(1, (t1, false), None), mk_tok(2, (t2, false), None)];
+        let mut g = G::new(&format!("lxm_{}", k)).rule("source", choice(vec![seq(vec![s("x"), sym("t0"), sym("t1")]), seq(vec![s("y"), sym("t2")])]));
+        for t in &toks { g = g.rule(&t.name, t.expr.clone()); }
+        g = g.extras(if *space { vec![pat(" ")] } else { vec![] });
+        merged_fam.push(LexGrammar { id: g.name.clone(), g, toks, kind: "context", space_extra: *space, alphabet: if *space { vec!["a", "b", " "] } else { vec!["a", "b", "c"] } });
     }
     // (iv) regex structure: every expression of nesting depth <= 2 over the atoms a, b, [ab] with the postfix operators
     // ? * + {0,1} {0,2} {1,2} {2} {2,} and the binary operators concatenation and alternation; sixteen of them per grammar,
@@ -173,6 +185,7 @@ pub fn grammars(tier: &str) -> Vec<LexGrammar> {
     out.extend(pick(ctx2));
     out.extend(kws);
     out.extend(inner_sp);
+    out.extend(merged_fam);
     out.extend(structs);
     out.extend(classes);
     out.extend(wordpats);
@@ -354,7 +367,10 @@ pub fn check_grammar(lg: &LexGrammar, maxlen: usize, res: &mut ShardResult) {
                 match want {
                     None => { if !xt.root_has_error() { res.violation("accepts-untokenizable-input", format!("reference tokenizer fails on {:?} but the parse reports no error: {}", text, xt.sexp(&l.language)), case_json(lg, &text)); } }
                     Some(w) => {
-                        if xt.root_has_error() { res.violation("rejects-tokenizable-input", format!("{:?}: documented rules give {:?} but the parse has an error: {}", text, w, xt.sexp(&l.language)), case_json(lg, &text)); return; }
+                        // Known finding (family (viii), see known_findings.json): the first token of the `x` branch is returned as the
+                        // longer token that is valid only after `y`, because the two ended up in one merged lex state.
+                        let merged = lg.id.starts_with("lxm_") && text.trim_start().starts_with('x') && xt.sexp(&l.language).contains("(t2)");
+                        if xt.root_has_error() { res.violation(if merged { "merged-lex-state-returns-token-invalid-in-state" } else { "rejects-tokenizable-input" }, format!("{:?}: documented rules give {:?} but the parse has an error: {}", text, w, xt.sexp(&l.language)), case_json(lg, &text)); return; }
                         let got: Vec<(String, usize, usize)> = xt.nodes.iter().filter(|n| n.children.is_empty() && !n.extra && n.end > n.start).map(|n| (l.language.node_kind_for_id(n.kind_id).unwrap_or("?").to_string(), n.start, n.end)).collect();
                         if got != w {
                             // Known finding: with a `word` token, a string that is extracted as a keyword takes part in the lexing
